@@ -182,9 +182,9 @@ namespace c07
 
   // ------------------------------------------------------------------------------------------ solver zoo
   enum SolverKind { S_PCG = 0, S_PCR, S_BICGSTAB_L, S_BICGSTAB_R, S_BICGSTABL1_L, S_BICGSTABL2_L, S_BICGSTABL2_R, S_FGMRES2, S_FGMRES3D, S_GMRES2, S_GMRES3D,
-    S_RICHARDSON, S_RGCR, S_IDRS1, S_IDRS2, S_PCGNR, S_PIPEPCG, S_GROPPPCG, S_RBICGSTAB, S_PMR, S_CHEBYSHEV, S_COUNT };
+    S_RICHARDSON, S_RICHARDSON1, S_RGCR, S_IDRS1, S_IDRS2, S_PCGNR, S_PIPEPCG, S_GROPPPCG, S_RBICGSTAB, S_PMR, S_CHEBYSHEV, S_COUNT };
   const char* const SNAME[] = {"PCG", "PCR", "BiCGStab-left", "BiCGStab-right", "BiCGStabL(1)-left", "BiCGStabL(2)-left", "BiCGStabL(2)-right", "FGMRES(2,delta=0)", "FGMRES(3,delta=1)", "GMRES(2,delta=0)", "GMRES(3,delta=1)",
-    "Richardson(0.5)", "RGCR", "IDR(1)", "IDR(2)", "PCGNR", "PipePCG", "GroppPCG", "RBiCGStab", "PMR", "Chebyshev"};
+    "Richardson(0.5)", "Richardson(1)", "RGCR", "IDR(1)", "IDR(2)", "PCGNR", "PipePCG", "GroppPCG", "RBiCGStab", "PMR", "Chebyshev"};
   /// solver class (stable part of the violation keys; the variant is in the message)
   inline const char* cname(int s)
   {
@@ -195,7 +195,7 @@ namespace c07
     case S_FGMRES2: case S_FGMRES3D: return "FGMRES";
     case S_GMRES2: case S_GMRES3D: return "GMRES";
     case S_IDRS1: case S_IDRS2: return "IDRS";
-    case S_RICHARDSON: return "Richardson";
+    case S_RICHARDSON: case S_RICHARDSON1: return "Richardson";
     default: return SNAME[s];
     }
   }
@@ -222,7 +222,7 @@ namespace c07
     // (n <= k, eigenvector right hand sides) then runs on rounding noise -> treated like the other breakdown-prone methods
     case S_FGMRES2: case S_GMRES2: return {false, false, true, 2, false, true};
     case S_FGMRES3D: case S_GMRES3D: return {false, false, false, 2, false, true};
-    case S_RICHARDSON: return {false, false, false, 1, false, false};
+    case S_RICHARDSON: case S_RICHARDSON1: return {false, false, false, 1, false, false};
     case S_RGCR: return {false, false, false, 2, true, false};
     case S_IDRS1: case S_IDRS2: return {false, false, true, 2, false, false};
     case S_PCGNR: return {false, false, false, 1, false, false};
@@ -277,6 +277,7 @@ namespace c07
     case S_GMRES2: return Solver::new_gmres(A, f, 2, 0.0, pr);
     case S_GMRES3D: return Solver::new_gmres(A, f, 3, 1.0, pr);
     case S_RICHARDSON: return Solver::new_richardson(A, f, 0.5, pr);
+    case S_RICHARDSON1: return Solver::new_richardson(A, f, 1.0, pr);
     case S_RGCR: return Solver::new_rgcr(A, f, pr);
     case S_IDRS1: { auto q = Solver::new_idrs(A, f, 1, pr); q->reset_shadow_space(false); return q; }
     case S_IDRS2: { auto q = Solver::new_idrs(A, f, 2, pr); q->reset_shadow_space(false); return q; }
@@ -297,6 +298,11 @@ namespace c07
     static constexpr const char* tag = "";
     Mat mat; Filter filter;
     LocalPolicy(const SysDef& sys, const std::vector<char>& fixed) : mat(make_csr(sys)), filter(FilterMaker<Filter>::make(sys.n, fixed)) {}
+    /// in-place update of the matrix values (same layout)
+    void set_values(const SysDef& sys)
+    {
+      for(int i = 0; i < sys.n; ++i) for(Index k = mat.row_ptr()[i]; k < mat.row_ptr()[i + 1]; ++k) mat.val()[k] = double(sys.at(i, int(mat.col_ind()[k])));
+    }
     VecT new_vec(int n) const { return VecT(Index(n)); }
     static double* raw(VecT& v) { return v.elements(); }
     static constexpr bool has(int s) { return s != S_PIPEPCG && s != S_GROPPPCG && s != S_RBICGSTAB; }
@@ -337,6 +343,12 @@ namespace c07
       filter(FilterMaker<Filter>::make(sys.n, fixed))
     {
     }
+    void set_values(const SysDef& sys)
+    {
+      Mat& lm = mat.local();
+      for(int i = 0; i < sys.n; ++i) for(Index k = lm.row_ptr()[i]; k < lm.row_ptr()[i + 1]; ++k)
+      { lm.val()[k] = double(sys.at(i, int(lm.col_ind()[k]))); local_mat_for_prec.val()[k] = lm.val()[k]; }
+    }
     VecT new_vec(int n) const { return VecT(gate.get(), Index(n)); }
     static double* raw(VecT& v) { return v.local().elements(); }
     static constexpr bool has(int s) { return s == S_PCG || s == S_PIPEPCG || s == S_GROPPPCG || s == S_RBICGSTAB; }
@@ -370,7 +382,7 @@ namespace c07
     if(t.needs_spd && !sys.symmetric) return false;
     if(s == S_CHEBYSHEV && p != P_NONE) return false;            // has no preconditioner
     if(s == S_PCGNR && !(p == P_NONE || p == P_JACOBI)) return false;
-    if(s == S_RICHARDSON && p == P_NONE) return false;           // plain Richardson converges only for ||I - omega A|| < 1
+    if((s == S_RICHARDSON || s == S_RICHARDSON1) && p == P_NONE) return false;           // plain Richardson converges only for ||I - omega A|| < 1
     if((s == S_IDRS2) && sys.n < 3) return false;                // IDR(s) needs s < n
     if((s == S_IDRS1) && sys.n < 2) return false;
     return true;
@@ -423,6 +435,10 @@ namespace c07
     LD cond = 1, normA = 0;
     bool cheb_interval_ok = true;
     std::string where;
+    std::string key_tag;   // appended to the truthfulness keys (which history class the judged solve belongs to)
+    std::vector<Op> ops;
+    std::vector<Result> fresh;
+    std::set<uint64_t> states;
 
     Case(verif::Ctx& c_, const SysDef& sys_, int s_, int p_, const Limits& l_, const std::vector<char>& fx, bool thorough) :
       c(c_), sys(sys_), s(s_), p(p_), lim(l_), fixed(fx), tr(traits(s_)), n(sys_.n), pol(sys_, fx)
@@ -443,6 +459,7 @@ namespace c07
       { std::vector<LD> e(n, 0.0L); e[ff] = 1.0L; add_rhs(e, nullptr); }
       if(thorough) for(int i = ff + 1; i < n; ++i) if(!fixed[i]) { std::vector<LD> e(n, 0.0L); e[i] = 1.0L; add_rhs(e, nullptr); }
       if(n > 1) add_rhs(std::vector<LD>(n, 1.0L), nullptr);
+      { std::vector<LD> z(n, 0.0L); add_rhs(z, &z); } // b = 0: the initial defect already ends the iteration (apply must still deliver x = 0)
       {
         std::vector<LD> xp(n), b(n, 0.0L);
         for(int i = 0; i < n; ++i) xp[i] = fixed[i] ? 0.0L : ((i & 1) ? -1.0L : 1.0L) * LD(2 + i) / 4.0L;
@@ -458,8 +475,11 @@ namespace c07
       return sv;
     }
 
-    Result exec(ISolver& sv, const Op& op)
+    /// executes op; the vectors (rhs, start values) are taken from 'data' (default: this case), the solver and vector layout from this case
+    Result exec(ISolver& sv, const Op& op, const Case* data = nullptr)
     {
+      const std::vector<std::vector<LD>>& rhs = data ? data->rhs : this->rhs;
+      const std::vector<std::vector<LD>>& xref = data ? data->xref : this->xref;
       Result r;
       VecT vb(pol.new_vec(n)), vx(pol.new_vec(n));
       double* pb = Policy::raw(vb); double* px = Policy::raw(vx);
@@ -502,7 +522,7 @@ namespace c07
     void judge(const Op& op, const Result& r, const std::string& ctx)
     {
       const std::string sn = cname(s);
-      const std::string sv = std::string(SNAME[s]) + " precond=" + PNAME[p]; // variant + preconditioner class: keys of the truthfulness checks
+      const std::string sv = std::string(SNAME[s]) + " precond=" + PNAME[p] + (lim.tol_rel == 0.0 ? " tol_rel=0" : "") + key_tag; // variant + preconditioner class: keys of the truthfulness checks
       auto why = [&]{ char b[400]; snprintf(b, sizeof b, " -> status=%s iters=%u def_init=%.6g def_final=%.6g x=", stname(r.st), unsigned(r.iters), r.d0, r.d1);
         return where + " | " + ctx + opstr(op) + b + vstr(r.x); };
       const std::vector<LD>& b = rhs[op.rhs];
@@ -512,7 +532,8 @@ namespace c07
       bool xfinite = true; for(double v : r.x) if(!std::isfinite(v)) xfinite = false;
       LD nx = 0, nb = 0; for(double v : r.x) nx += LD(v) * v; for(auto v : b) nb += v * v; nx = sqrtl(nx); nb = sqrtl(nb);
       const LD d_true = xfinite ? true_defect(b, r.x) : std::numeric_limits<LD>::quiet_NaN();
-      const LD round = 1e4L * EPS * (normA * nx + nb);
+      LD nx0 = 0; for(double v : x0) nx0 += LD(v) * v; nx0 = sqrtl(nx0);
+      const LD round = 1e4L * EPS * (normA * (nx + nx0) + nb);   // rounding level of the iteration: the iterates start at the size of x0
       const bool skip_active = (lim.min_iter >= lim.max_iter); // documented: defect computation may be skipped, convergence control is off
       const Index itmax = std::max<Index>(std::max(lim.max_iter, lim.min_iter), 1);
       const double tol_abs = 1.0 / (EPS * EPS), div_rel = 1.0 / EPS;
@@ -526,7 +547,11 @@ namespace c07
       // the reported initial defect is the true one
       chk(c, fabsl(LD(r.d0) - d0_true) <= 1e-12L * std::max(d0_true, nb) + 1e-300L, "solvers.def_initial-untrue " + sn, why);
       // the reported final defect is the true residual of the returned iterate
-      if(xfinite && r.st != Status::aborted && !skip_active)
+      // (tol_rel = 0 with status max_iter: the solver was forced to iterate far beyond convergence; the recursively updated defect of
+      //  the short-recurrence methods then drifts away from b-Ax. The status claims nothing there; counted, not reported.)
+      if(xfinite && lim.tol_rel == 0.0 && r.st == Status::max_iter)
+      { if(!(std::isfinite(r.d1) && fabsl(LD(r.d1) - d_true) <= 1e-6L * d0_true + round)) c.count("tol_rel=0: recursive defect drifted before max_iter"); }
+      else if(xfinite && r.st != Status::aborted && !skip_active)
         chk(c, std::isfinite(r.d1) && fabsl(LD(r.d1) - d_true) <= 1e-6L * d0_true + round, "solvers.def_final-untrue " + sv,
           [&]{ char q[80]; snprintf(q, sizeof q, " | true residual %.6Lg", d_true); return why() + q; });
       // iteration limits
@@ -558,7 +583,7 @@ namespace c07
       default: break;
       }
       // convergence to the dense reference solution under generous limits, within the scope of the method
-      const bool generous = (lim.max_iter >= 100 && lim.min_iter == 0);
+      const bool generous = (lim.max_iter >= 100 && lim.min_iter == 0 && lim.tol_rel > 0.0); // tol_rel = 0: only an exactly vanishing defect may be reported as success
       bool in_scope = tr.conv_scope == 2 || (tr.conv_scope == 1 && !sys.scaled);
       {
         // restarted (F)GMRES(k) is only guaranteed to converge when one cycle spans the whole space
@@ -566,7 +591,7 @@ namespace c07
         const int kdim = (s == S_FGMRES2 || s == S_GMRES2) ? 2 : 3;
         if(tr.gmres_like && nfree > kdim) in_scope = false;
       }
-      if(s == S_PMR && !sys.symmetric) in_scope = false;       // one-dimensional residual projection: needs a definite symmetric part of the preconditioned operator
+      if((s == S_PMR || s == S_RICHARDSON1) && !sys.symmetric) in_scope = false; // undamped Richardson: the Jacobi/SSOR iteration itself must contract       // one-dimensional residual projection: needs a definite symmetric part of the preconditioned operator
       if(s == S_CHEBYSHEV && !cheb_interval_ok) { in_scope = false; c.count("chebyshev_power_method_interval_misses_spectrum"); }
       if(generous && in_scope && !(op.kind == 0 && op.x0 != 0))
       {
@@ -619,10 +644,12 @@ namespace c07
       cheb_interval_ok = (LD(ch->_min_ev) <= lmin && lmax <= LD(ch->_max_ev));
     }
 
-    void run(bool thorough)
+    void run(bool thorough) { prepare(); histories(thorough); }
+
+    /// alphabet, fresh-object results, oracle
+    void prepare()
     {
-      // ---- alphabet
-      std::vector<Op> ops;
+      ops.clear();
       for(int j = 0; j < int(rhs.size()); ++j)
       {
         ops.push_back(Op{0, j, 0});
@@ -630,8 +657,7 @@ namespace c07
         if(xref_exact[j]) ops.push_back(Op{1, j, 2});
       }
       // ---- fresh results + oracle
-      std::vector<Result> fresh(ops.size());
-      std::set<uint64_t> states;
+      fresh.assign(ops.size(), Result());
       for(size_t k = 0; k < ops.size(); ++k)
       {
         auto sv = new_solver();
@@ -656,7 +682,11 @@ namespace c07
           }
         }
       }
-      // ---- histories on one object
+    }
+
+    /// histories on one object
+    void histories(bool thorough)
+    {
       auto compare = [&](const Op& op, const Result& got, const Result& ref, const std::string& hist)
       {
         if(!tr.recycles)
@@ -697,7 +727,52 @@ namespace c07
       c.count("states", states.size());
       c.maxi("depth", thorough ? 7 : 6);
     }
+
+    /// histories with an in-place update of the MATRIX VALUES between two solves on one solver object:
+    ///   init op_i(A0) update(A0->A1) <re-init> op_j(A1)    with <re-init> in {done_numeric init_numeric, done init, init_numeric}
+    /// 'upd' is the prepared case of the updated system A1 (same pattern); every second result must equal the result of a fresh
+    /// solver built on A1 (anything cached from A0 - transposed matrix, eigenvalue bounds, factorisations, inverse diagonals,
+    /// recycled search directions - would show up here).
+    void value_update_histories(Case& upd)
+    {
+      const char* const RE[] = {"done_numeric init_numeric", "done init", "init_numeric"};
+      std::vector<size_t> first;                      // representatives for the first operation: first apply, first correct
+      for(size_t i = 0; i < ops.size() && first.size() < 2; ++i) if(first.empty() || ops[i].kind != ops[first[0]].kind) first.push_back(i);
+      for(size_t i : first) for(size_t j = 0; j < upd.ops.size(); ++j) for(int re = 0; re < 3; ++re)
+      {
+        pol.set_values(sys);
+        auto sv = new_solver();
+        sv->init();
+        Result r1 = exec(*sv, ops[i]);
+        std::string h = "init " + opstr(ops[i]) + " update_matrix_values(" + upd.sys.name + ") " + RE[re];
+        chk(c, tr.recycles || r1.same(fresh[i]), std::string("solvers.history-dependence ") + cname(s), [&]{ return where + " | history: init " + opstr(ops[i]); });
+        pol.set_values(upd.sys);
+        if(re == 0) { sv->done_numeric(); sv->init_numeric(); }
+        else if(re == 1) { sv->done(); sv->init(); }
+        else sv->init_numeric();
+        Result r2 = exec(*sv, upd.ops[j], &upd);
+        h += " " + upd.opstr(upd.ops[j]);
+        if(!tr.recycles)
+          chk(c, r2.same(upd.fresh[j]), std::string("solvers.stale-after-matrix-update ") + cname(s) + " precond=" + PNAME[p], [&]{ return where + " | history: " + h + " | result status=" + stname(r2.st)
+            + " iters=" + std::to_string(r2.iters) + " x=" + vstr(r2.x) + " but a fresh solver on the updated matrix gives status=" + stname(upd.fresh[j].st) + " iters=" + std::to_string(upd.fresh[j].iters) + " x=" + vstr(upd.fresh[j].x); });
+        else
+        { upd.key_tag = " after-matrix-update"; upd.judge(upd.ops[j], r2, "history: " + h + " | "); upd.key_tag.clear(); }
+        sv->done();
+        c.count("traces_validated_against_impl");
+        c.count("matrix_update_histories");
+      }
+      pol.set_values(sys);
+    }
   };
+
+  /// the updated system of the value-update histories: same pattern, diagonal scaled by 3/2 (keeps symmetry and definiteness)
+  inline SysDef updated_system(const SysDef& a)
+  {
+    SysDef b(a);
+    b.name = a.name + " with diag*1.5";
+    for(int i = 0; i < a.n; ++i) b.a[size_t(i) * a.n + i] *= 1.5L;
+    return b;
+  }
 
   inline void poison_heap()
   {
@@ -714,7 +789,7 @@ namespace c07
     const std::vector<SysDef> sysv = systems(c.thorough);
     const Index MAXIT[] = {100, 0, 1, 2};
     const Index MINIT[] = {0, 2};
-    const double TOLR[] = {1e-8, 1e-2};
+    const double TOLR[] = {1e-8, 1e-2, 0.0, 1.0};   // including exactly 0 (never converged unless the defect vanishes) and exactly 1
     for(size_t si = 0; si < sysv.size(); ++si)
     {
       const SysDef& sys = sysv[si];
@@ -733,10 +808,11 @@ namespace c07
       for(int p = 0; p < P_COUNT; ++p)
       {
         if(!Policy::has(s) || !pairing_allowed(s, p, sys)) continue;
-        for(int imx = 0; imx < 4; ++imx) for(int imn = 0; imn < 2; ++imn) for(int itr = 0; itr < 2; ++itr)
+        for(int imx = 0; imx < 4; ++imx) for(int imn = 0; imn < 2; ++imn) for(int itr = 0; itr < 4; ++itr)
         {
           // quick tier: the tolerance 1e-2 only together with the generous limits and max_iter = 2
-          if(!c.thorough && itr == 1 && !(imx == 0 || imx == 3)) continue;
+          if(!c.thorough && itr >= 1 && !(imx == 0 || imx == 3)) continue;
+          if(!c.thorough && itr >= 2 && !(imx == 0 && imn == 0)) continue;
           if(!c.want()) continue;
           Limits lim{MAXIT[imx], MINIT[imn], TOLR[itr]};
           std::string fstr; for(int i = 0; i < sys.n; ++i) if(fsets[fi][i]) fstr += (fstr.empty() ? "" : ",") + std::to_string(i);
@@ -747,6 +823,16 @@ namespace c07
           Case<Policy> cs(c, sys, s, p, lim, fsets[fi], c.thorough);
           cs.where = where;
           cs.run(c.thorough);
+          // value-update histories (quick: for the tolerance 1e-8 only)
+          if(c.thorough || itr == 0)
+          {
+            const SysDef sys1 = updated_system(sys);
+            Case<Policy> cu(c, sys1, s, p, lim, fsets[fi], c.thorough);
+            cu.where = where + " [updated matrix]";
+            cu.prepare();
+            cs.value_update_histories(cu);
+          }
+          c.heartbeat();
         }
       }
     }
